@@ -121,9 +121,15 @@ def graph_is_in_seg_bounds(
         return False, errors
 
     if axes:
+        if len(axes) != segmentation.ndim:
+            errors.append(
+                f"Number of axes in the geff metadata ({len(axes)}) does not match the number "
+                f"of dimensions in the segmentation ({segmentation.ndim})"
+            )
+            return False, errors
         for i, ax in enumerate(axes):
             max_bound = ax.max
-            if max_bound:
+            if max_bound is not None:
                 if seg_shape[i] * scale[i] <= max_bound:
                     errors.append(
                         f"Graph axis {i} is out of bounds with value {max_bound} in "
@@ -186,12 +192,16 @@ def has_seg_ids_at_time_points(
     # Loop over all time points, collect the label values, and check if the seg_ids are
     # present
     missing = defaultdict(list)
+    seg_shape = np.shape(segmentation)
     for t in time_points:
-        try:
-            labels = np.unique(np.take(segmentation, indices=t, axis=time_index))
-        except IndexError as e:
-            errors.append(f"Time point {t} is out of bounds: {e}")
+        # negative time points would silently wrap around in numpy indexing
+        if time_index >= len(seg_shape) or not 0 <= t < seg_shape[time_index]:
+            errors.append(
+                f"Time point {t} is out of bounds: axis {time_index} of segmentation data "
+                f"with shape {seg_shape}"
+            )
             return False, errors
+        labels = np.unique(np.take(segmentation, indices=t, axis=time_index))
 
         label_set = set(labels.tolist())
         for seg_id in seg_id_group[t]:
@@ -248,15 +258,21 @@ def has_seg_ids_at_coords(
 
     missing = {}
     for coord, seg_id in zip(coords, seg_ids, strict=False):
-        try:
-            scaled_coord = [int(c * s) for c, s in zip(coord, scale, strict=True)]
-            value = segmentation[tuple(scaled_coord)]
-        except IndexError:
+        if len(coord) != segmentation.ndim:
+            errors.append(
+                f"Coords {coord} do not have one value per dimension of the segmentation "
+                f"({segmentation.ndim})"
+            )
+            return False, errors
+        scaled_coord = [c * s for c, s in zip(coord, scale, strict=True)]
+        # negative coordinates would silently wrap around in numpy indexing
+        if not all(0 <= c < dim for c, dim in zip(scaled_coord, segmentation.shape, strict=True)):
             errors.append(
                 f"Coords {coord} are out of bounds for segmentation data with shape"
                 f"{segmentation.shape} and scale factors {scale}"
             )
             return False, errors
+        value = segmentation[tuple(int(c) for c in scaled_coord)]
 
         if value != seg_id:
             missing[seg_id] = coords
